@@ -959,6 +959,25 @@ type callable struct {
 	vars   []reflect.Value // non-local (global and closure) variables.
 }
 
+var callablePtrType = reflect.TypeOf((*callable)(nil))
+
+// isNil reports whether c represents the nil function value.
+func (c *callable) isNil() bool {
+	if c == nil {
+		return true
+	}
+	if c.fn != nil {
+		return false
+	}
+	if c.native != nil {
+		return c.native.value.IsNil()
+	}
+	if c.value.IsValid() {
+		return c.value.IsNil()
+	}
+	return true
+}
+
 // Native returns the native function of a callable.
 func (c *callable) Native() *NativeFunction {
 	if c.native != nil {
